@@ -370,10 +370,20 @@ def _array_or_sequence(repo, res, r3, inv, helpers):
                 if not iterated:
                     continue
                 # told apart first: a test of the parameter's array-ness that re-binds it or branches
-                told = any(
-                    isinstance(n, ast.Call) and ((norm(n.func) == "isinstance" and n.args and norm(n.args[0]) == p_ and "ndarray" in norm(n.args[1])) or (norm(n.func) in ("np.ndim", "hasattr") and n.args and norm(n.args[0]) == p_))
-                    for n in ast.walk(f.node)
-                ) or any(isinstance(n, ast.Attribute) and n.attr in ("ndim", "shape") and norm(n.value) == p_ for n in ast.walk(f.node))
+                # a test that separates EVERY ndarray (bare or unit-carrying) from a sequence: isinstance(p, np.ndarray),
+                # np.ndim(p) / np.shape(p), or not isinstance(p, (list, tuple)); a test for unyt_array only lets a bare
+                # (N, D) array through to the iteration
+                def _covers_all_arrays(n):
+                    if not isinstance(n, ast.Call):
+                        return False
+                    f_ = norm(n.func)
+                    if f_ == "isinstance" and len(n.args) == 2 and norm(n.args[0]) == p_:
+                        cls = n.args[1]
+                        names = [norm(e) for e in cls.elts] if isinstance(cls, ast.Tuple) else [norm(cls)]
+                        return any(c in ("np.ndarray", "numpy.ndarray", "ndarray") for c in names) or set(names) <= {"list", "tuple"}
+                    return f_ in ("np.ndim", "np.shape") and n.args and norm(n.args[0]) == p_
+
+                told = any(_covers_all_arrays(n) for n in ast.walk(f.node))
                 if not told:
                     bad.append(f"{f.name}: iterates {p_} without telling an (N, D) array from a sequence of D arrays")
             res.check(not bad, f"{h.key}:{p_}:array-or-sequence", h.fn.where(), f"{t} reads an (N, D) array as N points but a sequence as D coordinate arrays; the handler re-packages `{p_}` by iterating it, which turns an (N, D) unyt_array into the list of its N rows - NumPy then bins a different sample (other counts, other number of axes) than for the bare array", f"the two forms of {p_} told apart before it is iterated", bad, rid=r3)
@@ -591,6 +601,17 @@ def defaults_rule(repo, res, inv):
 def methods_rule(repo, res):
     r5 = res.rule("C06-R5", "ndarray-method overrides forward their arguments unchanged and in order", floor=5)
     arr = repo.mod(ARR)
+    # __pow__: the zero-exponent shortcut answers with an array of self's shape, which is NumPy's answer only for an
+    # exponent of no dimensions (broadcasting against a (1, 1) exponent gives another shape)
+    from engine.sem import summarise
+
+    pw = arr.func("unyt_array.__pow__")
+    res.fn(pw)
+    pp = pw.params[1]
+    scalar_tests = (f"np.isscalar({pp})", f"np.ndim({pp}) == 0", f"np.shape({pp}) == ()", f"isinstance({pp}, numeric_type)", f"isinstance({pp}, (int, float))")
+    short = [x for x in summarise(pw) if x.kind == "return" and "super().__pow__" not in (x.value or "")]
+    loose = [sorted(f"{t}={tr}" for t, tr in x.facts) for x in short if not any(tr and t in scalar_tests for t, tr in x.facts)]
+    res.check(not loose, "__pow__:shortcut-scalar-only", pw.where(), "the exponent-zero shortcut of __pow__ (an array of ones in self's shape) is taken for an exponent that is not known to be 0-dimensional: q ** np.zeros((1, 1)) then has another shape than NumPy's broadcast result", f"np.isscalar({pp}) among the conditions", loose[:2], rid=r5)
     fn = arr.func("unyt_array.argsort")
     res.fn(fn)
     rets = [n for n in ast.walk(fn.node) if isinstance(n, ast.Return)]
